@@ -229,6 +229,11 @@ func HarnessC04HandlerCut() {
 		}
 	}
 	check(isPrefixOf(got, msgs), "messages delivered to the handler are a prefix of those sent")
+	// a handler that asks again after the end gets the same answer: the
+	// outcome recorded for the stream does not change
+	if nondetBool("receiveAgain") {
+		check(!stream.Receive(), "once Receive reported the end it keeps reporting it")
+	}
 	if stream.Err() == nil {
 		onBoundary := false
 		for _, e := range frameEnds {
